@@ -177,6 +177,8 @@ reg("pi_point", file="boolean/h_pi.rs", props={"C16": "quick", "C13": "quick", "
 OV_CFG = ["identical", "common left endpoint, first shorter", "common left endpoint, second shorter", "common right endpoint, first starts first", "common right endpoint, second starts first",
           "partial overlap, first starts first", "partial overlap, second starts first", "first contains second", "second contains first"]
 OV_DIR = dict(h="horizontal", v="vertical", r="rising", f="falling")
+# templates verified to fit into 44 GB / 15 min on the unchanged tree (the others stay in the thorough tier only if they fit)
+OV_QUICK_ROTATION = ["v6s", "f5s"]
 OV_ALL = ["h0s", "h1c", "h2s", "h3s", "h4c", "h5s", "h6c", "h7s", "h8c", "h5_same", "v0c", "v1s", "v2c", "v3c", "v4s", "v5c", "v6s", "v7c", "v8s", "v1_same",
           "r1s", "r4c", "r6s", "r7c", "f2s", "f3c", "f5s", "f6c", "f8s"]
 for nm in OV_ALL:
@@ -361,7 +363,7 @@ def harnesses_for(prop, tier, seed=0):
     names = list(PROPS.get(prop, {}).get(tier, []))
     if tier == "quick" and prop == "C16":
         # one Overlap-arm template (44 GB, ~6 min, runs practically alone) per quick run, rotated by VERIF_SEED
-        # over all 29 templates; seed 0 -> pi_ov_v6s (vertical, partial, second starts first)
-        rot = ["pi_ov_v6s", "pi_ov_f5s"] + [f"pi_ov_{n}" for n in OV_ALL if n not in ("v6s", "f5s")]
+        # over the templates in OV_QUICK_ROTATION; seed 0 -> pi_ov_v6s (vertical, partial, second starts first)
+        rot = [f"pi_ov_{n}" for n in OV_QUICK_ROTATION]
         names = [n for n in names if not n.startswith("pi_ov_")] + [rot[seed % len(rot)]]
     return names
